@@ -45,8 +45,8 @@ CLAIMS = {
         note='Trusted: chrono constructors (proleptic Gregorian validity), integer parsing grammar, string slicing contracts in verus/prelude.rs, Verus/Z3. chrono %y%m%d rendering assumed.',
         design='DESIGN.md §5 C11', technique='contract-based deductive verification (Verus) of extracted real functions against one shared date specification'),
     'C12': dict(
-        text='Deductive proof (Verus) that each arm of the dispatch tables maps the announced type code to the body type with the same identifier, typed parse mismatches give T03, unsupported codes are reported as unsupported.',
-        note='Trusted: prelude contracts, plugin glue around the extracted matches unverified, Verus/Z3.',
+        text='Deductive proof (Verus) that each arm of the dispatch tables maps the announced type code to the body type with the same identifier, typed parse mismatches give T03, unsupported codes are reported as unsupported, and the validate plugin calls a text valid exactly when it parses and the full rule list of its announced type is empty.',
+        note='Trusted: prelude contracts, plugin JSON assembly around the extracted matches / verdict statements unverified; parse_auto as called by the plugin is an uninterpreted function of the text, Verus/Z3.',
         design='DESIGN.md §5 C12', technique='contract-based deductive verification (Verus) of extracted dispatch functions'),
     'C13': dict(
         text='Deductive proof (Verus) that stop-on-first validation returns a prefix of the full list with equal emptiness (per extracted validate_network_rules), the result is a function of the message, the trait method of every type forwards to it (or is the extracted default body), SwiftMessage::validate reports one entry per error in order with is_valid iff none, and the wrapper / plugin statements take the full list of the announced type.',
